@@ -86,7 +86,7 @@ def rule_rx1(ctx: Ctx) -> RuleResult:
 
 def rule_dk(ctx: Ctx) -> RuleResult:
     rr = RuleResult("DK-1..3", "objects become mappings exactly for named fields, regex-matched key sets or empties",
-                    floor=6)
+                    floor=5)
     prog = ctx.prog
     det = prog.func(GEN, "MetadataGenerator._detect_type")
     conv = prog.func(GEN, "MetadataGenerator._convert")
